@@ -76,6 +76,42 @@ def handleError (args : List String) (obs : String) : String :=
       model ++ "\t" ++ verdict
   | _ => "bad-case\tFAIL:bad-case"
 
+/-- c20x: the other error values that become responses: `std::io::Error` (only `InvalidData` is the client's fault), the library's own
+    "cannot read pending body" error (a fault of the server program), and `log::Error` through `log_response` (the response the handler
+    attached, else an empty 500; the message is for the log only). -/
+def handleX (args : List String) (obs : String) : String :=
+  match args with
+  | [spec] =>
+    let p := spec.splitOn ":"
+    let expected : Option Response :=
+      match p with
+      | ["io", kind, t] => (hexDecode t).map (ofIoError (kind == "InvalidData"))
+      -- (the library's own error for reading a pending body has kind `InvalidInput`)
+      | ["pend", _, _] => some (ofIoError false [])
+      | ["err", ctor, resp, _] =>
+        let given : Option Response :=
+          if resp == "-" then none
+          else if resp.startsWith "t" then (resp.drop 1).toString.toNat?.map fun c => Response.text c (str "shown")
+          else resp.toNat?.map Response.new
+        some (ofLogError (if ctor == "client" then some (given.getD (Response.new 400)) else given) none)
+      | _ => none
+    match expected with
+    | none => "bad-case\tFAIL:bad-case"
+    | some e =>
+      let model := showResponse e
+      let verdict :=
+        match parseResponse (obs.splitOn " ") with
+        | some r =>
+          let body := r.body.src.pieces.flatten
+          let leaks := (List.range (body.length + 1)).any fun i => (str "ZQ").isPrefixOf (body.drop i)
+          let fails := (if r.code == e.code then [] else ["wrong-status-class"]) ++
+            (if leaks then ["error-text-in-response-body"] else []) ++
+            (if r.kind == .normal then [] else ["not-a-normal-response"])
+          if fails.isEmpty then "ok" else "FAIL:" ++ ",".intercalate fails ++ ":"
+        | none => if obs == "PANIC" then "FAIL:panic:" else "FAIL:unparsable-response:"
+      model ++ "\t" ++ verdict
+  | _ => "bad-case\tFAIL:bad-case"
+
 /-- c20s: `name nnn`; the statement is "normal response with exactly that code". -/
 def handleStatus (args : List String) (obs : String) : String :=
   match args with
